@@ -170,7 +170,7 @@ func c02VerifierFacts(c *Ctx, rule string, report bool) paaVerifierFacts {
 			st := structFieldStores(tokAlloc)
 			if vs := st["AccessToken"]; len(vs) == 1 {
 				tv := c.upIn(uiS, vs[0])
-				if b, f, ok := fieldLoad(tv); ok && f.Name() == "AccessToken" && baseAlloc(b) == custom {
+				if b, f, ok := fieldLoad(tv); ok && f.Name() == "AccessToken" && c.sameStruct(b, custom) {
 					if c.before(fn, clS, tv.(ssa.Instruction)) {
 						tokOK = true
 					}
@@ -215,7 +215,7 @@ func c02VerifierFacts(c *Ctx, rule string, report bool) paaVerifierFacts {
 			return
 		}
 		b, sf, ok := fieldLoad(s.Val)
-		if ok && sf.Name() == want && baseAlloc(b) == custom && c.before(fn, clS, s) {
+		if ok && sf.Name() == want && c.sameStruct(b, custom) && c.before(fn, clS, s) {
 			c.OK(rule, key+" bind."+f.Name(), s.Pos(), "Tunnel.%s = verified claim %s", f.Name(), want)
 		} else {
 			c.Bad(rule, key+" bind."+f.Name(), s.Pos(), "Tunnel.%s is not set from the verified claim %s", f.Name(), want)
@@ -311,7 +311,7 @@ func c02KeyWriters(c *Ctx, rule string) {
 				if root := addrRootGlobal(s.Addr); root == g {
 					n++
 					sf := shortFn(fn)
-					if sf == "cmd/rdpgw.main" || sf == "cmd/rdpgw.initOIDC" || strings.HasSuffix(sf, ".init") {
+					if sf == "cmd/rdpgw.main" || sf == "cmd/rdpgw.initOIDC" || strings.HasSuffix(sf, ".init") || c.inMainScope(fn) {
 						c.OK(rule, "write "+gname+" in "+sf, s.Pos(), "start-up code")
 					} else {
 						c.Bad(rule, "write "+gname+" in "+sf, s.Pos(), "security.%s is written outside start-up code", gname)
